@@ -12,3 +12,4 @@ import Theorems.C03
 import Theorems.C20
 import Theorems.C04
 import Theorems.C10
+import Theorems.C11
